@@ -357,6 +357,7 @@ pub fn ref_verify<G: AffineRepr>(
     }
 
     let followup = rt.challenge_bytes(b"bpsim-followup", 32);
+    rt.sched.pop();
     RefResult {
         sched: rt.sched,
         stop_at,
